@@ -91,11 +91,12 @@ def setup(T, NODE, CTX, variant, fmt="json"):
     if variant == "mixin_lazy":
         from mashumaro.config import BaseConfig
         ns["Config"] = type("Config", (BaseConfig,), {"lazy_compilation": True})
-    W = dataclasses.make_dataclass("W", [("x", T)], bases=(mixin_of(fmt),), namespace=ns)
+    direct = isinstance(T, type) and issubclass(T, mixin_of(fmt)) and variant == "mixin"
+    W = T if direct else dataclasses.make_dataclass("W", [("x", T)], bases=(mixin_of(fmt),), namespace=ns)
     S.W = W
     to_m, from_m = METHODS[fmt]
     if variant in ("mixin", "mixin_lazy"):
-        S.wrap = lambda v: W(x=v)
+        S.wrap = (lambda v: v) if direct else (lambda v: W(x=v))
         S.enc = lambda w: getattr(w, to_m)(encoder=ident)
         S.dec = lambda d: getattr(W, from_m)(d, decoder=ident)
         S.real_enc = lambda w: getattr(w, to_m)()
